@@ -35,7 +35,7 @@ import (
 )
 
 type c11Op struct {
-	K  string `json:"k"` // add | remove | flap | removeAll | rpc | advance
+	K  string `json:"k"` // add | addSlow | remove | flap | removeAll | rpc | advance
 	I  int    `json:"i,omitempty"`
 	Ms int    `json:"ms,omitempty"`
 	By string `json:"by,omitempty"` // remove: "local" | "remote"
@@ -79,6 +79,32 @@ type c11Far struct {
 	srv     *grpc.Server
 	removed bool
 	muxID   string
+}
+
+// c11GateConn lets the first `pass` bytes through and then blocks reads until the gate is opened.
+type c11GateConn struct {
+	net.Conn
+	mu   sync.Mutex
+	pass int
+	gate chan struct{}
+}
+
+func (g *c11GateConn) Read(p []byte) (int, error) {
+	g.mu.Lock()
+	budget := g.pass
+	g.mu.Unlock()
+	if budget <= 0 {
+		<-g.gate
+		return g.Conn.Read(p)
+	}
+	if len(p) > budget {
+		p = p[:budget]
+	}
+	n, err := g.Conn.Read(p)
+	g.mu.Lock()
+	g.pass -= n
+	g.mu.Unlock()
+	return n, err
 }
 
 type c11Result struct {
@@ -146,11 +172,69 @@ func c11Run(t *testing.T, c c11Case) (res c11Result) {
 			lastChange := time.Now()
 			var lastServedBy string
 			var mu sync.Mutex
-			add := func() {
+			noteUnhealthy := func() {
+				for _, s := range mgr.GetMuxConnections() {
+					if s.State().State == session.Error && !s.IsClosed() {
+						res.classes["table_changed_while_a_live_session_failed_its_last_ping"] = true
+					}
+				}
+			}
+			var add func()
+			// addSlow: the far end of the new session does not read anything for the first 12 s, so the session's first
+			// health-check ping times out (state Error) while the session itself stays open and becomes usable
+			addSlow := func() {
 				poll()
 				if pending == nil {
 					return
 				}
+				before := map[string]bool{}
+				for id := range mgr.GetMuxConnections() {
+					before[id] = true
+				}
+				near, far := net.Pipe()
+				tag := fmt.Sprintf("s%d", nextTag)
+				nextTag++
+				f := &c11Far{tag: tag, conn: far}
+				// the far end answers the provider's liveness ping (one 12-byte yamux header) and then reads nothing more
+				gated := &c11GateConn{Conn: far, pass: 12, gate: make(chan struct{})}
+				cfg := yamux.DefaultConfig()
+				cfg.LogOutput = io.Discard
+				cfg.EnableKeepAlive = false
+				fs, _ := yamux.Server(gated, cfg)
+				srv := grpc.NewServer()
+				healthpb.RegisterHealthServer(srv, &c11Health{tag: tag})
+				go func() { _ = srv.Serve(fs) }()
+				pending <- near
+				pending = nil
+				poll()
+				time.Sleep(12 * time.Second)
+				poll()
+				close(gated.gate)
+				f.sess, f.srv = fs, srv
+				poll()
+				for id, ms := range mgr.GetMuxConnections() {
+					if !before[id] {
+						f.muxID = id
+						if ms.State().State == session.Error {
+							res.classes["session_alive_with_failed_ping"] = true
+						}
+					}
+				}
+				if f.muxID == "" { // the session did not survive (or was never registered): nothing to track
+					srv.Stop()
+					_ = fs.Close()
+					_ = far.Close()
+					f.removed = true
+				}
+				fars = append(fars, f)
+				lastChange = time.Now()
+			}
+			add = func() {
+				poll()
+				if pending == nil {
+					return
+				}
+				defer noteUnhealthy()
 				before := map[string]bool{}
 				for id := range mgr.GetMuxConnections() {
 					before[id] = true
@@ -296,6 +380,8 @@ func c11Run(t *testing.T, c c11Case) (res c11Result) {
 					if wasEmpty && len(liveFars()) > 0 {
 						res.classes["empty_to_nonempty"] = true
 					}
+				case "addSlow":
+					addSlow()
 				case "remove":
 					if l := liveFars(); len(l) > 0 {
 						f := l[o.I%len(l)]
@@ -354,7 +440,7 @@ func c11Run(t *testing.T, c c11Case) (res c11Result) {
 	return res
 }
 
-const c11Rule = "real MultiClientConn (production dial options) + real multiMuxManager/muxProvider + real yamux over net.Pipe + a real gRPC health server per session that reports its session tag, in a virtual-time bubble; rapid histories of add / remove (closed locally or by the remote end) / flap (remove+add) / removeAll / rpc (unary, 5 s deadline) / advance; state oracle after every step: keys the dialer accepts == registered sessions == CanMakeCalls, the dialer opens streams on every registered session and on no removed one; behaviour oracle: a successful call was served by a currently registered session; with no session calls report Unavailable/DeadlineExceeded; >=20 virtual seconds after the last change a call succeeds whenever a session exists; non-trivial = the session that served the previous call was removed and a later call was served by another one, or an empty->non-empty transition; distinct = distinct histories"
+const c11Rule = "real MultiClientConn (production dial options) + real multiMuxManager/muxProvider + real yamux over net.Pipe + a real gRPC health server per session that reports its session tag, in a virtual-time bubble; rapid histories of add / addSlow (the far end reads nothing for 12 s: the session's first health-check ping fails and its state is Error while it stays open and registered) / remove (closed locally or by the remote end) / flap (remove+add) / removeAll / rpc (unary, 5 s deadline) / advance; state oracle after every step: keys the dialer accepts == registered sessions == CanMakeCalls, the dialer opens streams on every registered session and on no removed one; behaviour oracle: a successful call was served by a currently registered session; with no session calls report Unavailable/DeadlineExceeded; >=20 virtual seconds after the last change a call succeeds whenever a session exists; non-trivial = the session that served the previous call was removed and a later call was served by another one, or an empty->non-empty transition; distinct = distinct histories"
 
 func c11Gen(t *rapid.T) c11Case {
 	var c c11Case
@@ -362,8 +448,10 @@ func c11Gen(t *rapid.T) c11Case {
 	for i := 0; i < n; i++ {
 		x := rapid.IntRange(0, 99).Draw(t, "op")
 		switch {
-		case x < 25:
+		case x < 20:
 			c.Ops = append(c.Ops, c11Op{K: "add"})
+		case x < 25:
+			c.Ops = append(c.Ops, c11Op{K: "addSlow"})
 		case x < 40:
 			c.Ops = append(c.Ops, c11Op{K: "remove", I: rapid.IntRange(0, 3).Draw(t, "i"), By: rapid.SampledFrom([]string{"local", "remote"}).Draw(t, "by")})
 		case x < 48:
